@@ -180,6 +180,15 @@ func (e *env) introspect(tok string, auth opdrv.ClientAuth) *opdrv.Resp {
 	return e.w.Post(e.router, "/oauth/introspect", url.Values{"token": {tok}}, auth)
 }
 
+// introspectAs additionally puts a client_id into the form (mixed-identity callers; "" = none).
+func (e *env) introspectAs(tok string, auth opdrv.ClientAuth, formClientID string) *opdrv.Resp {
+	f := url.Values{"token": {tok}}
+	if formClientID != "" {
+		f.Set("client_id", formClientID)
+	}
+	return e.w.Post(e.router, "/oauth/introspect", f, auth)
+}
+
 func (e *env) revoke(tok, hint string, auth opdrv.ClientAuth) *opdrv.Resp {
 	f := url.Values{"token": {tok}}
 	if hint != "" {
